@@ -338,6 +338,7 @@ def run(prog: Program, _no_c10: bool = False) -> Results:
                         f"{f.key}: `{norm(c)[:60]}` may be applied to a value obtained by following a reference (`{norm(via_ref[0])[:50]}`): "
                         f"`args = {{ a = v; }}` defined next to `v = \"1\"` but passed as `f args` below another `v` then has its `v` "
                         f"looked up at the call site, and the edit lands on the wrong binding")
+    closer_scope_first(prog, res)
     if _no_c10:
         return res
     # shared clauses: chain orientation and with precedence (C10)
@@ -353,3 +354,80 @@ def run(prog: Program, _no_c10: bool = False) -> Results:
     res.analysed_functions |= sub.analysed_functions
     res.assumptions = ["which binding the CLI-only fallbacks pick under shadowing is runtime data (let_bindings holds only the outermost layer)"]
     return res
+
+
+def closer_scope_first(prog: Program, res: Results) -> None:
+    """R-C11-5: where the CLI follows `inherit name;` inside a call argument to the binding that defines `name`, the set that
+    holds the call (the closer scope) is consulted before the enclosing let bindings."""
+    r = res.rule("R-C11-5", "the closer scope wins when an inherited name is followed to its definition: in _resolve_inherited_binding "
+                 "the enclosing let bindings are consulted only after the lookup of the name in the set that holds the call found "
+                 "nothing (and never ahead of it in one combined scan)", floor=1)
+    f = prog.funcs.get("_resolve_inherited_binding")
+    if f is None:
+        res.unclass("_resolve_inherited_binding vanished")
+        return
+    ps = f.params()
+    sp = ps[0] if ps else None
+    leaf = next((p for p in ps if "leaf" in p), None)
+    outer = next((p for p in ps if "outer" in p or "let" in p), None)
+    if not (sp and leaf and outer):
+        res.unclass(f"_resolve_inherited_binding: parameters not recognised ({ps})")
+        return
+    res.analysed_functions.add(f.key)
+    cfg = CFG(f.node)
+
+    def mentions(e, name):
+        return any(isinstance(x, ast.Name) and x.id == name for x in ast.walk(e))
+
+    def iter_exprs(n):
+        """the expressions this node iterates over (for-statement, generator of next()/any()/comprehension)"""
+        out = []
+        if n.kind == "for":
+            out.append(n.ast.iter)
+        elif n.ast is not None and n.kind in ("stmt", "test", "return"):
+            for g in ast.walk(n.ast):
+                if isinstance(g, ast.comprehension):
+                    out.append(g.iter)
+        return out
+
+    def parts(e):
+        """a concatenation read left to right"""
+        if isinstance(e, (ast.Tuple, ast.List)):
+            return [p_ for x in e.elts for p_ in parts(x.value if isinstance(x, ast.Starred) else x)]
+        if isinstance(e, ast.BinOp) and isinstance(e.op, ast.Add):
+            return parts(e.left) + parts(e.right)
+        if isinstance(e, ast.Call) and callee(e) in ("chain", "list", "tuple") and e.args:
+            return [p_ for a in e.args for p_ in parts(a)]
+        if isinstance(e, ast.BoolOp) and isinstance(e.op, ast.Or) and len(e.values) == 2 and isinstance(e.values[1], (ast.Tuple, ast.List)) and not e.values[1].elts:
+            return parts(e.values[0])
+        return [e]
+
+    # lookups of the leaf name in the holding set
+    s_calls = [n for n in cfg.nodes if n.ast is not None and n.kind in ("stmt", "test") and any(
+        isinstance(c, ast.Call) and (callee(c) or "").startswith("_find") and c.args and mentions(c.args[0], sp) and any(norm(a) == leaf for a in c.args[1:])
+        for c in ast.walk(n.ast))]
+    s_vars = {norm(n.ast.targets[0]) for n in s_calls if isinstance(n.ast, ast.Assign) and isinstance(n.ast.targets[0], ast.Name)}
+    s_vars |= {w.target.id for n in s_calls for w in ast.walk(n.ast) if isinstance(w, ast.NamedExpr) and isinstance(w.target, ast.Name)}
+    miss = edges_establishing(cfg, lambda a, t: (norm(a) in {f"{v} is None" for v in s_vars} and t is True)
+                              or (norm(a) in {f"{v} is not None" for v in s_vars} | s_vars and t is False)) if s_vars else []
+    o_nodes = [(n, e) for n in cfg.nodes for e in iter_exprs(n) if mentions(e, outer)]
+    if not o_nodes:
+        res.unclass(f"_resolve_inherited_binding: no scan of `{outer}` was found")
+        return
+    for n, e in o_nodes:
+        r.instances += 1
+        ps_ = parts(e)
+        io = [i for i, p_ in enumerate(ps_) if mentions(p_, outer)]
+        iset = [i for i, p_ in enumerate(ps_) if mentions(p_, sp)]
+        if iset:
+            ok = max(iset) < min(io)
+            why = f"`{norm(e)[:60]}` scans the enclosing let bindings ahead of the bindings of `{sp}`"
+        else:
+            ok = bool(miss) and cfg.all_paths_pass(n, cut_edges=miss)
+            why = (f"the scan of `{outer}` at `{norm(e)[:40]}` is reachable without the lookup of `{leaf}` in `{sp}` having found nothing"
+                   if s_calls else f"the name is never looked up in `{sp}` itself before `{outer}` is scanned")
+        r.ob(ok, {"site": f.key, "outer_scan": norm(e)[:60], "after_miss_in": sorted(s_vars)})
+        if not ok:
+            res.add("R-C11-5", (f.key, "enclosing let bindings consulted before the holding set"), f.loc(n.ast),
+                    f"{f.key}: {why}: when the name is bound both in the set that holds the call (e.g. a `rec` set) and in an enclosing "
+                    f"`let`, the shadowed outer binding is rewritten and the one the call really sees keeps its value")
